@@ -48,6 +48,12 @@ theorem generated_modifiers_shape :
      l.any (fun a => a.isCall "Replace" && a.args == ["replacement", "search", "replace", "1"]) &&
      l.any (fun a => a.kind == .ifB_ && a.name == "startPos > 0") &&
      l.any (fun a => a.kind == .assign_ && a.name == "startPos" && a.args == ["len(replacement) - len(end)"]) &&
+     -- the suffix is compared with and cut off as a slice of exactly len(end) bytes
+     l.any (fun a => a.kind == .ifB_ && a.name == "end == replacement[len(replacement)-len(end):]") &&
+     l.any (fun a => a.kind == .assign_ && a.name == "replacement" && a.args == ["replacement[:len(replacement)-len(end)]"]) &&
+     before l (fun a => a.kind == .ifB_ && a.name == "startPos > 0") (fun a => a.kind == .ifB_ && a.name == "end == replacement[len(replacement)-len(end):]") &&
+     count (fun a => a.isCall "TrimRight" || a.isCall "TrimSuffix" || a.isCall "Trim" || a.isCall "TrimLeft" || a.isCall "ReplaceAll") l == 0 &&
+     count (fun a => a.kind == .assign_ && a.name == "replacement") l == 5 &&
      l.any (fun a => a.kind == .caseB_ && a.name == "\"basename\"") &&
      l.any (fun a => a.kind == .caseB_ && a.name == "\"dirname\"") &&
      count (fun a => a.kind == .caseB_) l == 2 &&
